@@ -345,7 +345,13 @@ def check(pid, tier="quick", seed=None, jobs=None, count=None, write_evidence=Tr
             new_lines.append((f"VIOLATION property={pid} replay={path}", f"  clause={clause} sig={sig} occurrences={len(items)} first_seed={r['seed']}\n  {v.get('detail', '')[:1500]}"))
     finally:
         shutil.rmtree(sc, ignore_errors=True)
-    for line in known_lines:
+    # every listed finding of this property gets its line (count=0: not met by the seeds of this run; the finding stays listed)
+    met_sigs = {sig for (clause, sig) in by_sig}
+    known_lines_all = list(known_lines)
+    for sig, k in known_sigs.items():
+        if sig not in met_sigs:
+            known_lines_all.append(f"KNOWN-FINDING: property={pid} {k['what']} [sig={sig} count=0 (not met by the seeds of this run)]")
+    for line in known_lines_all:
         print(line)
     for line, det in new_lines:
         print(line)
